@@ -114,7 +114,7 @@ func run(c *vf.Ctx) {
 	layouts := []string{"multi", "deep", "alternates", "loose"}
 	nRepos := c.N(6, 16)
 	optPer := c.N(5, 8)
-	readsPer := c.N(1200, 4000)
+	readsPer := c.N(1200, 3000)
 
 	repos := make([]*repo, nRepos)
 	vf.Parallel(nRepos, 6, func(i int) {
